@@ -5,6 +5,15 @@ A case is
    'keep': 0|1, 'gsize': int, 'seed': int, 'fs': float, 't0': float,
    'stims': [{'src': arr|fixed|cos2, 'len': L, 'frac': f, 'trials': T, 'delays': [d, ...]}],
    'ops': [['pop', n] | ['pause', m|None] | ['resume', m|None]]}
+Optional fields (absent = the plain spelling), all about HOW the caller says the same thing:
+  case:  ctor kw|pos|setfs|registry, fsrep int|np, t0rep skip|int|np, build extend|mixed|extend-bcast|pos,
+         clone 0|1 (use q.clone() of the loaded queue), shadow same|diff (a second queue fed with the same source
+         objects and driven between the ops), meddle 0|1 (the caller scribbles over everything it passed in or got
+         back), nrep np64|np32|kw|posdec|mix (pop_buffer argument), trep np|kw (pause/resume argument), enc (array
+         value encoding base for long waveforms)
+  stim:  trep np64|np32|float (trial count), dform none|int|np|gen|list|tuple|ndarray (delays argument),
+         meta 0|1 (metadata dict), dtype f4|i4|i8|i2|strided, xdur / declare (explicit duration=), late 0|1
+  ops:   ['append', i] (stimulus i, marked late, is appended at that point), ['popnd', n] = pop_buffer(n, decrement=False)
 Positions m are sample positions relative to the queue start; the adapter passes
 t = t0 + m/fs.  Delays are in sample units (possibly fractional); the adapter passes d/fs and the
 model gets int(round((d/fs)*fs)) — the code's own expression.
@@ -24,15 +33,26 @@ ENC = 4096          # arrays hold (key+1)*ENC + j + 1: value -> (key, j) readabl
 # building the real objects
 # --------------------------------------------------------------------------
 
-def make_source(st, key, fs):
+_DTYPES = {'f4': np.float32, 'i4': np.int32, 'i8': np.int64, 'i2': np.int16}
+
+
+def make_source(st, key, fs, enc=ENC):
     """Returns (source object, len in samples, dur on the grid, reference waveform)."""
     from psiaudio import stim
     L = st['len']
     if st['src'] in ('arr', 'fixed'):
-        w = np.arange(1, L + 1, dtype=np.float64) + (key + 1) * ENC
+        w = np.arange(1, L + 1, dtype=np.float64) + (key + 1) * enc
+        a = w
+        dt = st.get('dtype')
+        if dt in _DTYPES:
+            a = w.astype(_DTYPES[dt])          # the same values in another dtype (all exactly representable)
+        elif dt == 'strided':
+            base = np.zeros(2 * L + 1)
+            base[1::2] = w
+            a = base[1::2]                     # a non-contiguous view
         if st['src'] == 'arr':
-            return w, L, dur_grid(L / fs, fs), w
-        g = stim.FixedWaveform(fs, w)
+            return a, L, dur_grid(L / fs, fs), w
+        g = stim.FixedWaveform(fs, a)
         return g, int(g.n_samples()), dur_grid(g.get_duration(), fs), w
     if st['src'] == 'cos2':
         from psiaudio.calibration import FlatCalibration
@@ -68,23 +88,57 @@ def delay_samples(d, fs):
     return int(round((d / fs) * fs))
 
 
-def make_queue(case):
-    from psiaudio import queue as Q
+_CLS = {'fifo': 'FIFOSignalQueue', 'interleaved': 'InterleavedFIFOSignalQueue', 'random': 'RandomSignalQueue',
+        'blockedrandom': 'BlockedRandomSignalQueue', 'grouped': 'GroupedFIFOSignalQueue',
+        'blockedfifo': 'BlockedFIFOSignalQueue'}
+_REG = {'fifo': 'first-in, first-out', 'interleaved': 'interleaved first-in, first-out',
+        'blockedfifo': 'blocked first-in, first-out', 'grouped': 'grouped first-in, first-out',
+        'random': 'random', 'blockedrandom': 'blocked random'}
+
+
+def fs_value(case):
+    """The sampling rate in the representation the caller uses (the same number)."""
     fs = case['fs']
+    r = case.get('fsrep')
+    if r == 'int' and float(fs).is_integer():
+        return int(fs)
+    if r == 'np':
+        return np.float64(fs)
+    return fs
+
+
+def make_queue(case, variant=None):
+    """Build the queue through the constructor spelling named by case['ctor'].
+    variant='diff': the same class with every option changed (for the bystander queue)."""
+    from psiaudio import queue as Q
+    fs = fs_value(case)
     p = case['policy']
-    if p == 'fifo':
-        return Q.FIFOSignalQueue(fs=fs)
-    if p == 'interleaved':
-        return Q.InterleavedFIFOSignalQueue(fs=fs, keep_complete_waveforms=bool(case.get('keep', 1)))
-    if p == 'random':
-        return Q.RandomSignalQueue(fs=fs)
-    if p == 'blockedrandom':
-        return Q.BlockedRandomSignalQueue(seed=case.get('seed', 0), fs=fs)
-    if p == 'grouped':
-        return Q.GroupedFIFOSignalQueue(group_size=case['gsize'], fs=fs)
-    if p == 'blockedfifo':
-        return Q.BlockedFIFOSignalQueue(fs=fs)
-    raise ValueError(p)
+    ctor = case.get('ctor')
+    keep = bool(case.get('keep', 1))
+    gsize = case.get('gsize', 0)
+    seed = case.get('seed', 0)
+    if variant == 'diff':
+        keep, gsize, seed = (not keep), gsize + 1, seed + 1
+    cls = Q.queues[_REG[p]] if ctor == 'registry' else getattr(Q, _CLS[p])
+    kw = {} if ctor == 'setfs' else {'fs': fs}
+    pos = ctor == 'pos'
+    if p in ('fifo', 'random'):
+        q = cls(fs) if pos else cls(**kw)
+    elif p == 'interleaved':
+        q = cls(keep, **kw) if pos else cls(keep_complete_waveforms=keep, **kw)
+    elif p == 'blockedrandom':
+        if not keep or ctor == 'registry':
+            kw['keep_complete_waveforms'] = keep      # accepted (inherited option), has no effect on this class
+        q = cls(seed, **kw) if pos else cls(seed=seed, **kw)
+    elif p == 'grouped':
+        q = cls(gsize, **kw) if pos else cls(group_size=gsize, **kw)
+    elif p == 'blockedfifo':
+        q = cls(**kw)
+    else:
+        raise ValueError(p)
+    if ctor == 'setfs':
+        q.set_fs(fs)
+    return q
 
 
 # --------------------------------------------------------------------------
@@ -102,6 +156,23 @@ def _on_alarm(signum, frame):
 OP_TIME_LIMIT = 3.0      # seconds per operation; a pop of a few thousand samples takes milliseconds
 
 
+def guarded(fn, limit=None):
+    """Run fn() under the per-operation watchdog. Returns 'ok', 'err HANG' or 'err <Class>'."""
+    status = 'ok'
+    old_handler = signal.signal(signal.SIGALRM, _on_alarm)
+    signal.setitimer(signal.ITIMER_REAL, limit or OP_TIME_LIMIT)
+    try:
+        fn()
+    except HangError:
+        status = 'err HANG'
+    except Exception as e:   # noqa: the class name is the observation
+        status = f'err {type(e).__name__}'
+    finally:
+        signal.setitimer(signal.ITIMER_REAL, 0)
+        signal.signal(signal.SIGALRM, old_handler)
+    return status
+
+
 class Trace:
     """Raw observations of one run (for the oracles) + canonical lines (for the diff)."""
 
@@ -116,16 +187,23 @@ class Trace:
         self.refs = []
         self.zero_at = []
         self.delays = []       # per key: list of delays in samples (cycle)
-        self.added = []        # (key, k, dur, ongrid)
+        self.added = []        # (key, k, dur, ongrid, payload_ok)
+        self.added2 = []       # what a second 'added' consumer saw: (key, k)
         self.removed = []      # uids in notification order
+        self.n_empty = 0       # number of 'empty' notifications so far
+        self.recording = True  # False while a bystander queue is being driven
 
 
 def _decode(out, c0, tr, case, live):
     """Map real samples back to cells. Encoded arrays are read off the value; a Cos2Envelope sample is
     looked up bit-exactly in the reference waveforms of the cos2 stimuli (preferring the continuation
     of the previous cell, then the position implied by a notified live trial `live` = [(key, k)])."""
-    cells = []
     stims = case['stims']
+    enc = case.get('enc', ENC)
+    out = np.asarray(out)
+    if len(out) > 20000 and not any(st['src'] == 'cos2' for st in stims):
+        return _decode_fast(out, tr, stims, enc)
+    cells = []
     cos = [i for i, st in enumerate(stims) if st['src'] == 'cos2']
     prev = None
     for i, v in enumerate(out):
@@ -134,8 +212,8 @@ def _decode(out, c0, tr, case, live):
             cells.append(('Z',))
             prev = None
             continue
-        kk = int(v // ENC) - 1
-        jj = int(v % ENC) - 1
+        kk = int(v // enc) - 1
+        jj = int(v % enc) - 1
         if v == int(v) and 0 <= kk < len(stims) and stims[kk]['src'] in ('arr', 'fixed') \
                 and 0 <= jj < tr.lens[kk]:
             cells.append(('W', kk, jj))
@@ -158,6 +236,25 @@ def _decode(out, c0, tr, case, live):
                     break
         cells.append(hit or ('X',))
         prev = hit
+    return cells
+
+
+_Z = ('Z',)
+_X = ('X',)
+
+
+def _decode_fast(out, tr, stims, enc):
+    """Vectorised decoding of a long buffer of encoded array values (same result as the loop above)."""
+    v = out.astype(np.float64)
+    kk = (v // enc).astype(np.int64) - 1
+    jj = (v % enc).astype(np.int64) - 1
+    lens = np.array(tr.lens + [0], dtype=np.int64)
+    okk = (kk >= 0) & (kk < len(stims))
+    good = (v != 0) & (v == np.floor(v)) & okk & (jj >= 0) & (jj < lens[np.where(okk, kk, len(stims))])
+    zero = v == 0
+    cells = [None] * len(v)
+    for i in range(len(v)):
+        cells[i] = _Z if zero[i] else (('W', int(kk[i]), int(jj[i])) if good[i] else _X)
     return cells
 
 
@@ -211,7 +308,8 @@ def _run_case(case):
 
     def rec_randint(*a, **k):
         r = real_randint(*a, **k)
-        tr.draws.append(int(r))
+        if tr.recording:
+            tr.draws.append(int(r))
         return r
 
     recorders = []
@@ -223,7 +321,18 @@ def _run_case(case):
 
         def shuffle(self, x):
             super().shuffle(x)
-            tr.perms.append([int(v) for v in x])
+            if tr.recording:
+                tr.perms.append([int(v) for v in x])
+
+    def rewire(q):
+        """copy.deepcopy turns the recording subclass back into a plain RandomState: put a recorder with the
+        same state in its place (whatever the attribute is called) so the clone's shuffles are seen too."""
+        for name, v in list(vars(q).items()):
+            if isinstance(v, real_RS) and not isinstance(v, RecRS):
+                r = RecRS()
+                r.set_state(v.get_state())
+                setattr(q, name, r)
+                recorders[:] = [r]
 
     np.random.seed(case.get('seed', 0) & 0x7FFFFFFF)
     np.random.randint = rec_randint
@@ -233,7 +342,7 @@ def _run_case(case):
     finally:
         np.random.RandomState = real_RS
     try:
-        _drive(case, q, tr, fs, t0)
+        _drive(case, q, tr, fs, t0, rewire)
         # continue the queue's own shuffle stream a little, so a model that needs one more
         # block than the code used still reads genuine draws
         if recorders:
@@ -249,68 +358,253 @@ def _run_case(case):
     return tr
 
 
-def _drive(case, q, tr, fs, t0):
-    q.set_t0(t0)
+def _trials_value(st):
+    T = st['trials']
+    r = st.get('trep')
+    return {'np64': np.int64, 'np32': np.int32, 'float': float}.get(r, int)(T)
+
+
+def _n_presentations_bound(case):
+    return sum(s['trials'] for s in case['stims']) + 5
+
+
+def _delays_value(st, fs, bound):
+    """The delays argument in the spelling named by st['dform'] (always the same sequence of delays)."""
+    ds = [d / fs for d in st['delays']]
+    f = st.get('dform')
+    if f == 'none' and st['delays'] == [0]:
+        return None
+    if f == 'int' and len(ds) == 1 and float(ds[0]).is_integer():
+        return int(ds[0])
+    if f == 'np' and len(ds) == 1:
+        return np.float64(ds[0])
+    if f == 'gen':
+        def forever():
+            while True:
+                for d in ds:
+                    yield d
+        return forever()
+    if f in ('list', 'tuple', 'ndarray'):
+        # a finite sequence: one entry per trial that can possibly be set up
+        seq = [ds[i % len(ds)] for i in range(bound)]
+        return seq if f == 'list' else tuple(seq) if f == 'tuple' else np.array(seq)
+    return ds[0] if len(ds) == 1 else itertools.cycle(ds)
+
+
+def _meta_value(st, i):
+    return {'stim': i, 'tag': f'm{i}', 'levels': [i, i + 1]} if st.get('meta') else None
+
+
+def _load(case, q, fs, srcs, bound, keys=None, upto=None):
+    """append / extend the stimuli that are present from the start; returns their keys."""
+    out = []
+    pending = []
+    build = case.get('build')      # how the caller fills the queue: append() each, extend() all, or a mixture
+    for i, st in enumerate(case['stims']):
+        if st.get('late'):
+            continue
+        src, declared = srcs[i]
+        T, delays, meta = _trials_value(st), _delays_value(st, fs, bound), _meta_value(st, i)
+        if build in ('extend', 'extend-bcast') or (build == 'mixed' and i > 0):
+            pending.append((src, T, delays, declared, meta))
+        elif build == 'pos':
+            out.append(q.append(src, T, delays, declared, meta))
+        else:
+            kw = {}
+            if meta is not None:
+                kw['metadata'] = meta
+            out.append(q.append(src, T, delays=delays, duration=declared, **kw))
+    if pending:
+        cols = [list(c) for c in zip(*pending)]
+        if build == 'extend-bcast':
+            # scalar arguments are broadcast by extend(); sequences in other container types
+            early = [st for st in case['stims'] if not st.get('late')]
+            if len({st['trials'] for st in early}) == 1:
+                cols[1] = cols[1][0]
+            else:
+                cols[1] = np.array([int(t) for t in cols[1]])
+            if all(len(st['delays']) == 1 and st.get('dform') is None for st in early) \
+                    and len({st['delays'][0] for st in early}) == 1:
+                cols[2] = cols[2][0]
+            else:
+                cols[2] = tuple(cols[2])
+            if all(d is None for d in cols[3]):
+                cols[3] = None
+            else:
+                cols[3] = tuple(cols[3])
+            if all(m is None for m in cols[4]):
+                cols[4] = None
+            out.extend(q.extend(tuple(cols[0]), cols[1], cols[2], cols[3], cols[4]))
+        else:
+            out.extend(q.extend(cols[0], cols[1], delays=cols[2], duration=cols[3], metadata=cols[4]))
+    return out
+
+
+def _append_one(case, q, fs, srcs, i, bound):
+    st = case['stims'][i]
+    src, declared = srcs[i]
+    return q.append(src, _trials_value(st), delays=_delays_value(st, fs, bound), duration=declared,
+                    metadata=_meta_value(st, i))
+
+
+def _scribble_sources(case, srcs, only=None):
+    """The caller re-uses its own arrays after having queued them."""
+    for i, ((src, _), st) in enumerate(zip(srcs, case['stims'])):
+        if (st.get('late') and only is None) or (only is not None and i != only):
+            continue
+        a = src if isinstance(src, np.ndarray) else getattr(src, 'waveform', None)
+        if isinstance(a, np.ndarray) and a.flags.writeable:
+            a[...] = 3
+
+
+def _drive(case, q, tr, fs, t0, rewire=lambda q: None):
+    t0rep = case.get('t0rep')
+    if t0rep == 'skip' and t0 == 0:
+        pass
+    elif t0rep == 'int' and float(t0).is_integer():
+        q.set_t0(int(t0))
+    elif t0rep == 'np':
+        q.set_t0(np.float64(t0))
+    else:
+        q.set_t0(t0)
     keys = []
     infos = []
+    metas = [_meta_value(st, i) for i, st in enumerate(case['stims'])]
+    declared_s = {}
 
     def on_added(info):
         k = int(round((info['t0'] - t0) * fs))
         ongrid = (info['t0'] == t0 + k / fs)
         key = keys.index(info['key'])
         infos.append(info)
-        tr.added.append((key, k, dur_grid(info['duration'], fs), ongrid))
+        ok = info['metadata'] == metas[key]
+        tr.added.append((key, k, dur_grid(info['duration'], fs), ongrid, bool(ok)))
+
+    def on_added2(info):
+        tr.added2.append((keys.index(info['key']), int(round((info['t0'] - t0) * fs))))
 
     def on_removed(info):
         uid = next((i for i, a in enumerate(infos) if a is info), -1)
         tr.removed.append(uid)
 
-    q.connect(on_added, 'added')
-    q.connect(on_removed, 'removed')
-    pending = []
+    def on_empty(info):
+        tr.n_empty += 1
+
+    bound = _n_presentations_bound(case)
+    srcs = []
     for i, st in enumerate(case['stims']):
-        src, n, dur, ref = make_source(st, i, fs)
+        src, n, dur, ref = make_source(st, i, fs, case.get('enc', ENC))
         tr.lens.append(n)
         tr.durs.append(dur)
         tr.refs.append(ref)
         tr.zero_at.append([int(j) for j in np.flatnonzero(np.asarray(ref) == 0)])
-        ds = st['delays']
-        tr.delays.append([delay_samples(d, fs) for d in ds])
-        delays = ds[0] / fs if len(ds) == 1 else itertools.cycle([d / fs for d in ds])
+        tr.delays.append([delay_samples(d, fs) for d in st['delays']])
         if st.get('xdur'):
-            # the caller declares a duration longer than the waveform (append(..., duration=...))
+            # the caller declares a duration different from the waveform's (append(..., duration=...))
             dur = dur + st['xdur']
             tr.durs[-1] = dur
-        declared = dur / fs if st.get('xdur') else None
-        build = case.get('build')      # how the caller fills the queue: append() each, extend() all, or a mixture
-        if build == 'extend' or (build == 'mixed' and i > 0):
-            pending.append((src, st['trials'], delays, declared))
-        else:
-            keys.append(q.append(src, st['trials'], delays=delays, duration=declared))
-        tr.lines.append(f'ok {i}')
-    if pending:
-        keys.extend(q.extend([p[0] for p in pending], [p[1] for p in pending], delays=[p[2] for p in pending],
-                             duration=[p[3] for p in pending]))
+        declared = dur / fs if (st.get('xdur') or st.get('declare')) else None
+        srcs.append((src, declared))
+    keys.extend(_load(case, q, fs, srcs, bound))
+    for i, st in enumerate(case['stims']):
+        if not st.get('late'):
+            tr.lines.append(f'ok {i}')
+
+    shadow = None
+    if case.get('shadow'):
+        # a bystander queue fed with the very same source objects, driven between the operations
+        tr.recording = False
+        shadow = make_queue(case, variant='diff' if case['shadow'] == 'diff' else None)
+        st0 = t0 + (1.5 if case['shadow'] == 'diff' else 0)
+        shadow.set_t0(st0)
+        _load(case, shadow, fs, srcs, bound)
+        tr.recording = True
+    if case.get('clone'):
+        # the caller works with a clone of the loaded queue; the original is used too
+        original, q = q, q.clone()
+        rewire(q)
+        tr.recording = False
+        g = np.random.get_state()
+        if guarded(lambda: original.pop_buffer(23)) == 'err HANG':
+            original = None
+        np.random.set_state(g)       # the bystander's draws are not part of this case's random stream
+        tr.recording = True
+        if shadow is None:
+            shadow, st0 = original, t0
+    if case.get('meddle'):
+        _scribble_sources(case, srcs)
+
+    q.connect(on_added, 'added')
+    q.connect(on_added2)                       # second consumer, default event
+    q.connect(on_removed, event='removed')
+    q.connect(on_empty, 'empty')
+    nrep = case.get('nrep')
+    trep = case.get('trep')
+
+    def time_arg(m):
+        t = t0 + m / fs
+        return np.float64(t) if trep == 'np' else t
 
     dead = False
-    for op in case['ops']:
+    held = None
+    for j, op in enumerate(case['ops']):
         if dead:
             tr.lines.append('dead')
             tr.steps.append({'op': op, 'status': 'dead'})
             continue
-        na, nr = len(tr.added), len(tr.removed)
+        if op[0] == 'append':
+            keys.append(_append_one(case, q, fs, srcs, op[1], bound))
+            if case.get('meddle'):
+                _scribble_sources(case, srcs, only=op[1])
+            tr.lines.append(f'ok {op[1]}')
+            tr.steps.append({'op': op, 'status': 'ok', 'cells': [], 'add': [], 'rm': [], 'n_out': 0,
+                             'ts': int(round(q.get_ts() * fs)), 'ts_exact': True, 'aux': True})
+            continue
+        if shadow is not None:
+            tr.recording = False
+            g = np.random.get_state()
+
+            def bystander():
+                shadow.pop_buffer((7 * j + 3) % 11 + 1)
+                if j % 5 == 3:
+                    shadow.pause(st0 + (int(round(shadow.get_ts() * fs)) // 2) / fs)
+                    shadow.resume()
+            if guarded(bystander) == 'err HANG':      # the bystander's own fate is not the subject of this case
+                shadow = None
+            np.random.set_state(g)
+            tr.recording = True
+        na, nr, ne = len(tr.added), len(tr.removed), tr.n_empty
         c0 = int(round(q.get_ts() * fs))
         out = np.zeros(0)
         status = 'ok'
         old_handler = signal.signal(signal.SIGALRM, _on_alarm)
         signal.setitimer(signal.ITIMER_REAL, OP_TIME_LIMIT)
         try:
-            if op[0] == 'pop':
-                out = q.pop_buffer(op[1])
+            if op[0] in ('pop', 'popnd'):
+                n = op[1]
+                r = nrep if nrep != 'mix' else [None, 'np64', 'kw', 'np32', 'posdec'][j % 5]
+                if r == 'np64':
+                    n = np.int64(n)
+                elif r == 'np32':
+                    n = np.int32(n)
+                if op[0] == 'popnd':
+                    out = q.pop_buffer(n, False) if r == 'posdec' else q.pop_buffer(n, decrement=False)
+                elif r == 'kw':
+                    out = q.pop_buffer(samples=n)
+                elif r == 'posdec':
+                    out = q.pop_buffer(n, True)
+                else:
+                    out = q.pop_buffer(n)
             elif op[0] == 'pause':
-                q.pause(None if op[1] is None else t0 + op[1] / fs)
+                if op[1] is None:
+                    q.pause(None) if trep == 'kw' else q.pause()
+                else:
+                    q.pause(t=time_arg(op[1])) if trep == 'kw' else q.pause(time_arg(op[1]))
             elif op[0] == 'resume':
-                q.resume(None if op[1] is None else t0 + op[1] / fs)
+                if op[1] is None:
+                    q.resume(t=None) if trep == 'kw' else q.resume()
+                else:
+                    q.resume(t=time_arg(op[1])) if trep == 'kw' else q.resume(time_arg(op[1]))
             else:
                 raise RuntimeError(f'bad op {op}')
         except RuntimeError:
@@ -327,7 +621,7 @@ def _drive(case, q, tr, fs, t0):
             tr.lines.append(status)
             tr.steps.append({'op': op, 'status': status})
             continue
-        if status != 'ok' and op[0] == 'pop' and op[1] > 0:
+        if status != 'ok' and op[0] in ('pop', 'popnd') and op[1] > 0:
             dead = True
             tr.lines.append(status)
             tr.steps.append({'op': op, 'status': status})
@@ -336,6 +630,21 @@ def _drive(case, q, tr, fs, t0):
         live = [(a[0], a[1]) for u, a in reversed(list(enumerate(tr.added)))
                 if u not in removed_set or u >= na]
         cells = _decode(out, c0, tr, case, live)
+        if case.get('meddle'):
+            # the caller owns what it was handed: overwrite the buffer, and the dicts get_info() returned
+            out = np.asarray(out)
+            if out.flags.writeable:
+                out[...] = 5
+            for k in keys:
+                d = q.get_info(k)
+                d['trials'] = -7
+                d['requested_trials'] = 99
+                d['duration'] = 0
+                d['delays'] = None
+        # a buffer handed out earlier belongs to the caller: a later request must not change it
+        aliased = held is not None and not np.array_equal(held[0], held[1])
+        if len(out):
+            held = (out, np.array(out, copy=True))
         tsf = q.get_ts()
         ts = int(round(tsf * fs))
         step = {
@@ -343,14 +652,26 @@ def _drive(case, q, tr, fs, t0):
             'add': tr.added[na:], 'rm': tr.removed[nr:], 'ts': ts, 'ts_exact': tsf == ts / fs,
             'empty': bool(q.is_empty()), 'rem': [int(q.remaining_trials(k)) for k in keys],
             'ct': int(q.count_trials()), 'cr': int(q.count_requested_trials()),
+            'n_empty': tr.n_empty - ne, 'aliased': bool(aliased),
+            'reqs': [int(q.get_info(k)['requested_trials']) for k in keys],
             'raw_nonzero_outside': None,
         }
         tr.steps.append(step)
-        adds = ','.join(f"{a[0]}@{a[1]}{'' if a[3] else '!offgrid'}+{a[2]}" for a in step['add']) or '-'
+        adds = ','.join(f"{a[0]}@{a[1]}{'' if a[3] else '!offgrid'}{'' if a[4] else '!payload'}+{a[2]}"
+                        for a in step['add']) or '-'
+        was_empty = any(s.get('empty') for s in tr.steps[:-1])
+        note = ''
+        if step['n_empty'] and not step['empty']:
+            note = '!notified'
+        elif step['empty'] and not was_empty and not step['n_empty'] and not any(
+                s.get('n_empty') for s in tr.steps[:-1]):
+            note = '!nonotify'
+        want_req = [int(case['stims'][i]['trials']) for i in range(len(keys))]
+        rq = '' if step['reqs'] == want_req else '!req'
         tr.lines.append(
-            f"{status} out={rle(cells)} add={adds} rm={_lst(step['rm'])} "
-            f"ts={ts}{'' if step['ts_exact'] else '!inexact'} empty={int(step['empty'])} "
-            f"rem={_lst(step['rem'])} ct={step['ct']} cr={step['cr']}")
+            f"{status} out={rle(cells)}{'!aliased' if aliased else ''} add={adds} rm={_lst(step['rm'])} "
+            f"ts={ts}{'' if step['ts_exact'] else '!inexact'} empty={int(step['empty'])}{note} "
+            f"rem={_lst(step['rem'])} ct={step['ct']} cr={step['cr']}{rq}")
 
 
 # --------------------------------------------------------------------------
@@ -366,16 +687,26 @@ def model_lines(case, use_tick=False):
         perms = ','.join(':'.join(str(v) for v in p) for p in pl) if pl else '-'
     fs = case['fs']
     lines = [f"new {case['policy']} {int(case.get('keep', 1))} {int(case.get('gsize', 0))} {draws} {perms}"]
-    for i, st in enumerate(case['stims']):
-        _, n, dur, ref = make_source(st, i, fs)
+
+    def append_line(i):
+        st = case['stims'][i]
+        _, n, dur, ref = make_source(st, i, fs, case.get('enc', ENC))
         zs = [int(j) for j in np.flatnonzero(np.asarray(ref) == 0)]
         kind = 'arr' if st['src'] == 'arr' else 'gen'
         dur = dur + st.get('xdur', 0)
-        lines.append(f"append {kind} {n} {st['trials']} {_lst([delay_samples(d, fs) for d in st['delays']])} "
-                     f"{dur} {_lst(zs)}")
+        return (f"append {kind} {n} {st['trials']} {_lst([delay_samples(d, fs) for d in st['delays']])} "
+                f"{dur} {_lst(zs)}")
+
+    for i, st in enumerate(case['stims']):
+        if not st.get('late'):
+            lines.append(append_line(i))
     for op in case['ops']:
         if op[0] == 'pop':
             lines.append(f"{'tick' if use_tick and op[1] > 0 else 'pop'} {op[1]}")
+        elif op[0] == 'popnd':
+            lines.append(f"popnd {op[1]}")
+        elif op[0] == 'append':
+            lines.append(append_line(op[1]))
         else:
             lines.append(f"{op[0]} {'none' if op[1] is None else op[1]}")
     return lines
@@ -398,7 +729,7 @@ def flat_cells(tr):
 
 
 def total_pop(case):
-    return sum(op[1] for op in case['ops'] if op[0] == 'pop' and op[1] > 0)
+    return sum(op[1] for op in case['ops'] if op[0] in ('pop', 'popnd') and op[1] > 0)
 
 
 FS_LIST = [1000.0, 25000.0, 44100.0, 48828.125, 97656.25, 100000.0, 195312.5]
@@ -412,9 +743,93 @@ def policy_fields(name, rng, nstim):
         d['build'] = b
     if name == 'interleaved-nokeep':
         d.update(policy='interleaved', keep=0)
+    if name == 'blockedrandom' and rng.random() < 0.3:
+        d['keep'] = 0          # the inherited keep_complete_waveforms option at its non-default value
     if name == 'grouped':
-        d['gsize'] = rng.randint(1, nstim + 1)
+        d['gsize'] = rng.choice([rng.randint(1, nstim + 1)] * 4 + [nstim + 5, 1000])
     return d
+
+
+def spell(rng, c, finite_delays=False, p=0.6):
+    """Choose at random HOW the caller says what the case says (constructor route, argument types, containers,
+    keyword/positional, metadata, explicit durations, clone, a bystander queue, a meddling caller).
+    The case stays the same case: the model lines do not change (except the declared duration).
+    finite_delays: finite delay sequences are legal (no pause re-presents trials, every request decrements)."""
+    if rng.random() > p:
+        return c
+    if rng.random() < 0.5:
+        c['ctor'] = rng.choice(['pos', 'setfs', 'registry'])
+    if rng.random() < 0.3:
+        c['fsrep'] = rng.choice(['int', 'np'])
+    if rng.random() < 0.3:
+        c['t0rep'] = rng.choice(['skip', 'int', 'np'])
+    b = rng.choice([None, 'extend', 'mixed', 'extend-bcast', 'extend-bcast', 'pos'])
+    c.pop('build', None)
+    if b:
+        c['build'] = b
+    bcast_delay = b == 'extend-bcast' and rng.random() < 0.5
+    if rng.random() < 0.4:
+        c['nrep'] = rng.choice(['np64', 'np32', 'kw', 'posdec', 'mix', 'mix'])
+    if rng.random() < 0.3:
+        c['trep'] = rng.choice(['np', 'kw'])
+    if rng.random() < 0.15:
+        c['clone'] = 1
+    if rng.random() < 0.2:
+        c['shadow'] = rng.choice(['same', 'diff'])
+    if rng.random() < 0.3:
+        c['meddle'] = 1
+    same_trials = rng.random() < 0.3
+    for i, st in enumerate(c['stims']):
+        if same_trials:
+            st['trials'] = c['stims'][0]['trials']
+        if rng.random() < 0.3:
+            st['trep'] = rng.choice(['np64', 'np32', 'float'])
+        if bcast_delay:
+            st['delays'] = list(c['stims'][0]['delays'][:1])      # one scalar delay for all: extend() broadcasts it
+        elif rng.random() < 0.4:
+            forms = ['none', 'int', 'np', 'gen']
+            if finite_delays:
+                forms += ['list', 'tuple', 'ndarray']
+            st['dform'] = rng.choice(forms)
+            if st['dform'] in ('none', 'int') and rng.random() < 0.7:
+                st['delays'] = [0]
+        if rng.random() < 0.4:
+            st['meta'] = 1
+        if st['src'] in ('arr', 'fixed') and rng.random() < 0.4:
+            st['dtype'] = rng.choice(['f4', 'i4', 'i8', 'strided'] + (['i2'] if i < 7 and 'enc' not in c else []))
+        if rng.random() < 0.2 and not st.get('xdur'):
+            st['declare'] = 1
+        if c.get('clone') and st.get('dform') == 'gen':
+            del st['dform']        # Python cannot deep-copy a running generator: not a legal argument for clone()
+    return c
+
+
+CASE_SPELLINGS = ('ctor', 'fsrep', 't0rep', 'build', 'clone', 'shadow', 'meddle', 'nrep', 'trep')
+STIM_SPELLINGS = ('trep', 'dform', 'meta', 'dtype', 'declare', 'xdur')
+
+
+def drop_stim(c, i):
+    """The case without stimulus i (late appends of it dropped, later ones renumbered)."""
+    ops = []
+    for op in c['ops']:
+        if op[0] == 'append':
+            if op[1] == i:
+                continue
+            op = ['append', op[1] - 1] if op[1] > i else op
+        ops.append(op)
+    return dict(c, stims=c['stims'][:i] + c['stims'][i + 1:], ops=ops)
+
+
+def unspell_candidates(c):
+    """Shrinking: the same case with one spelling choice back at its plain form."""
+    for f in CASE_SPELLINGS:
+        if c.get(f):
+            yield {k: v for k, v in c.items() if k != f}
+    for i, st in enumerate(c['stims']):
+        for f in STIM_SPELLINGS:
+            if st.get(f):
+                s2 = {k: v for k, v in st.items() if k != f}
+                yield dict(c, stims=c['stims'][:i] + [s2] + c['stims'][i + 1:])
 
 
 def policy_name(case):
